@@ -23,6 +23,18 @@ def load_known():
         return json.load(fobj)["findings"]
 
 
+def _same_call_narrower(known_key, key):
+    """the receiver label `{A|B}` of a failing call lists the kinds the kind inference finds for the receiver; the same call seen with fewer
+    kinds (`{Property}.merge` for the recorded `{Property|Section}.merge`) is the same recorded finding"""
+    import re as _re
+    ma, mb = _re.search(r"\{([^{}]*)\}", known_key), _re.search(r"\{([^{}]*)\}", key)
+    if not ma or not mb:
+        return False
+    if known_key[:ma.start()] != key[:mb.start()] or known_key[ma.end():] != key[mb.end():]:
+        return False
+    return set(mb.group(1).split("|")) <= set(ma.group(1).split("|"))
+
+
 class Report(object):
     def __init__(self, pid, tier="quick", seed=0):
         self.pid = pid
@@ -57,7 +69,7 @@ class Report(object):
         for k in self.known:
             if k.get("status", "known") != "known":
                 continue
-            if k.get("key") == full_key:
+            if k.get("key") == full_key or _same_call_narrower(k.get("key", ""), full_key):
                 status = "known"
                 k["_matched"] = True
         item = {"rule": rule, "instance": key, "key": full_key, "status": status,
